@@ -41,9 +41,19 @@ def gen_C18(rng, tier):
             cmd, fam = init_line(rng, kind, default=(rng.random() < 0.25 and kind in ('full', 'uniform', 'normal')))
             ini = p.bind(cmd, 'i')
             # several calls in any order: draws are fresh, shape and tracking as requested
+            made = []
             for _ in range(rng.randint(1, 3)):
                 shape = rand_shape(rng, 4, 3, 0)
                 t = p.bind('initcall %s %s' % (ini, ints(shape))); p.add('obs %s' % t)
+                made.append((t, shape))
+            # the same shape twice: two distinct tensor objects (own gradient contexts) — back-propagating through
+            # one leaves the other without a gradient
+            if rng.random() < 0.5 and made:
+                t, shape = made[-1]
+                t2 = p.bind('initcall %s %s' % (ini, ints(shape))); p.add('obs %s' % t2)
+                z = p.bind('mul %s %s' % (t, t)); p.add('bp %s' % z)
+                p.add('obs %s' % t); p.add('obs %s' % t2)
+                p.tag('same-shape-twice')
             p.tag(kind)
         # the tensor-level random constructors
         shape = rand_shape(rng, 4, 3, 0)
@@ -181,6 +191,38 @@ def gen_C20(rng, tier):
         # afterwards everything shared is as before
         for t in (W, B, X, U): p.add('obs %s' % t)
         p.tag('threads%d' % nthreads)
+        progs.append(p)
+    # first use of a FRESH shared tensor of a larger size (element counts around 256 / 1024: thresholds of lazily built
+    # or blocked representations), by all goroutines at once: every goroutine's first call on the tensor is concurrent
+    # with the others' — each operation kind comes first in some goroutine
+    for i in range(20 if tier == 'quick' else 300):
+        p = Prog('c20_big%d' % i)
+        shape = rng.choice([[16, 16], [48, 40], [32, 32], [33, 31], [1100], [3, 400], [2, 16, 9], [255], [257, 1]])
+        n = prod(shape)
+        S = p.tensor(shape, [float((7 * v) % 23) * 0.125 - 1.0 for v in range(n)], tracked=(i % 3 == 0))
+        r = len(shape)
+        ops = ['transpose %s' % S if r >= 2 else 'unsqueeze %s 0' % S, 'reshape %s %d' % (S, n), 'flatten %s 0' % S,
+               'unsqueeze %s %d' % (S, r), 'sumalong %s 0' % S, 'maxalong %s %d' % (S, r - 1), 'scale %s %s' % (S, f2b(0.5)),
+               'slice %s 0:1' % S, 'broadcast %s %s' % (S, ints([2] + shape)), 'add %s %s' % (S, S), 'mul %s %s' % (S, S)]
+        if r == 2: ops.append('matmul %s %s' % (S, 'TR'))
+        nthreads = rng.choice([2, 4, 8, 16])
+        p.add('par')
+        for tid in range(nthreads):
+            p.add('thread')
+            rot = ops[tid % len(ops):] + ops[:tid % len(ops)]
+            k = 0
+            for o in rot[:rng.randint(4, len(rot))]:
+                k += 1
+                if 'TR' in o:
+                    tname = 'th%d_tr' % tid
+                    p.add('%s = transpose %s' % (tname, S)); o = o.replace('TR', tname)
+                nm = 'th%d_b%d' % (tid, k)
+                p.add('%s = %s' % (nm, o)); p.add('obs %s' % nm)
+            p.add('sum %s' % S); p.add('nelems %s' % S)
+            p.add('endthread')
+        p.add('endpar')
+        p.add('obs %s' % S)
+        p.tag('fresh-large-shared', 'threads%d' % nthreads, 'elements%d' % n)
         progs.append(p)
     return progs
 
